@@ -286,6 +286,12 @@ func checkC02(r *core.Run) {
 		{"attribute-name-in-pieces", `<a data-x{{$x := 1}}/='` + S + `'>t</a>`, []string{"zz onmouseover=" + c02Marker + " zz"}, false},
 		{"attribute-name-in-pieces", `<iframe src{{$x := 1}}doc="` + S + `"></iframe>`, []string{c02Marker}, false},
 		{"attribute-name-in-pieces", `<a o{{$x := 1}}nclick="` + S + `">t</a>`, []string{c02Marker}, false},
+		// a static scheme part after an action that renders nothing
+		{"scheme-part-after-empty-action", `<a href="` + S + `java` + S + `">x</a>`, []string{"", "script:alert(1)"}, false},
+		{"scheme-part-after-empty-action", `<form action="` + S + `javascript` + S + `"></form>`, []string{"", ":alert(1)"}, false},
+		{"scheme-part-after-empty-action", `<a href="{{range $.L}}{{end}}java` + S + `">x</a>`, []string{"script:alert(1)"}, false},
+		{"scheme-part-after-empty-action", `<a href="{{if false}}` + S + `{{end}}java` + S + `">x</a>`, []string{"x", "script:alert(1)"}, false},
+		{"scheme-part-after-empty-action", `<img src="` + S + `jav&#97;` + S + `">`, []string{"", "script:alert(1)"}, false},
 		// markup declarations that a tokenizer turns into comments
 		{"cdata-section-in-html", `<p><![CDATA[` + S + `]]></p>`, nil, false},
 		{"cdata-section-in-html", `<![CDATA[` + S + `]]>x`, nil, false},
